@@ -1,5 +1,6 @@
 import AvoVerif.Drv.Common
 import AvoVerif.Props.C15
+import AvoVerif.Props.C15Arch
 import AvoVerif.Model.Locals
 import AvoVerif.Gen.Regs
 namespace Avo.Drv.C15
@@ -34,6 +35,27 @@ by the acceptor). -/
 def textFrame? (t : String) : Option Int :=
   (Avo.Locals.parseTextSize t.toList).map (fun p => (p.1 : Int))
 
+/-- The part of an `accept-bp…` request behind the register lists: `=> err | panic | ok <localSize'> [<$frame[-args]>]`,
+judged with `acceptBP` for the given notion of "modifies BP". -/
+def judgeTail (attrs : Nat) (ls : Int) (hasCall : Bool) (clob : Outcome → Bool) (note : String) (rest : List String) : Option String :=
+  let judge := fun (what : String) (o : Outcome) =>
+    if acceptBP attrs ls hasCall (clob o) o then "ok" else explain what attrs hasCall (clob o) o ++ note
+  match rest with
+  | "=>" :: "panic" :: _ => some "bad-panic"
+  | "=>" :: "err" :: _ => some (judge "" .err)
+  | ["=>", "ok", l'] => do
+    let ls' ← l'.toInt?
+    some (judge "" (.ok ls'))
+  | ["=>", "ok", l', text] => do
+    let ls' ← l'.toInt?
+    match judge "" (.ok ls') with
+    | "ok" =>
+      match textFrame? text with
+      | none => some "bad-text-unreadable"
+      | some fr => some (judge "text-" (.ok fr))
+    | bad => some bad
+  | _ => none
+
 def handle : Handler
   /- `bp <attrs> <localSize> <n (id mask)*>`: exact model of EnsureBasePointerCalleeSaved on the
      bound output registers → `err` | `ok <localSize>` (error versus no error: the message is not compared) -/
@@ -52,24 +74,23 @@ def handle : Handler
     let ls ← l.toInt?
     let (hasCall, rest) ← boolTok rest
     let (outs, rest) ← listOf regTok rest
-    let clob := clobbersBPHW [outs]
-    let judge := fun (what : String) (o : Outcome) =>
-      if acceptBP attrs ls hasCall clob o then "ok" else explain what attrs hasCall clob o
-    match rest with
-    | "=>" :: "panic" :: _ => some "bad-panic"
-    | "=>" :: "err" :: _ => some (judge "" .err)
-    | ["=>", "ok", l'] =>
-      let ls' ← l'.toInt?
-      some (judge "" (.ok ls'))
-    | ["=>", "ok", l', text] =>
-      let ls' ← l'.toInt?
-      match judge "" (.ok ls') with
-      | "ok" =>
-        match textFrame? text with
-        | none => some "bad-text-unreadable"
-        | some fr => some (judge "text-" (.ok fr))
-      | bad => some bad
-    | _ => none
+    judgeTail attrs ls hasCall (fun _ => clobbersBPHW [outs]) "" rest
+  /- `accept-bp-form <shape> <attrs> <localSize> <hasCall> <measured> <n (id mask)*> <n (id mask)*> => …` (form sweep,
+     harness/c15forms.go): the one-instruction function `<shape>`; "can modify BP" = `clobArch`: the instruction was
+     MEASURED to change the caller's BP when executed alone, or a destination operand of its table row (first list)
+     or a declared output after compilation (second list) is a view of GP register 5.  `acceptBP … (formClob … o) o`
+     is `acceptBPForm` (Props/C15Arch, `acceptBPForm_sound/iff`): a refusal is judged with `clobArch`, an accepted
+     function with "measured or declared" -/
+  | "accept-bp-form" :: _shape :: a :: l :: rest => do
+    let attrs ← a.toNat?
+    let ls ← l.toInt?
+    let (hasCall, rest) ← boolTok rest
+    let (measured, rest) ← boolTok rest
+    let (dests, rest) ← listOf regTok rest
+    let (outs, rest) ← listOf regTok rest
+    let note := if measured && !(outs.any isBPHW) then " (measured: executing the instruction changes BP; no declared output is a BP register)"
+      else if !measured && !(dests.any isBPHW) && !(outs.any isBPHW) then " (the instruction does not write BP)" else ""
+    judgeTail attrs ls hasCall (formClob measured dests outs) note rest
   /- `accept-bp-exec <attrs> <frame> <hasCall> <clobbersHW> <same|changed|crash>`: measured by calling the
      printed, assembled function: the caller's BP must be unchanged -/
   | ["accept-bp-exec", _, _, _, _, res] =>
@@ -78,6 +99,6 @@ def handle : Handler
   | _ => none
 
 def handlers : List (String × Handler) :=
-  ["bp", "accept-bp", "accept-bp-exec", "accept-bp-exec-build"].map (·, handle)
+  ["bp", "accept-bp", "accept-bp-form", "accept-bp-exec", "accept-bp-exec-build"].map (·, handle)
 
 end Avo.Drv.C15
